@@ -79,12 +79,49 @@ ENTITY v12_c SUBTYPE OF (v12_a, v12_m); cc : INTEGER; END_ENTITY;
 ENTITY v12_tgt SUBTYPE OF (v12_b, v12_c); dd : INTEGER; END_ENTITY;
 ENTITY v12_ref; t : OPTIONAL v12_m; END_ENTITY;""",
             {'targets': ['v12_tgt'], 'referrers': [('v12_ref', [('t', 'single')])], 'inverses': {'v12_tgt': [('logs', 'v12_ref', 't', 'set')]}, 'tparams': {'v12_tgt': 5}}),
+    # the target entity is its own referrer: parent / buddies point to nodes, an instance may mention itself
+    'v13': ("""ENTITY v13_node; parent : OPTIONAL v13_node; buddies : LIST [0:?] OF v13_node;
+ INVERSE children : SET [0:?] OF v13_node FOR parent; befriended_by : SET [0:?] OF v13_node FOR buddies; END_ENTITY;""",
+            {'targets': ['v13_node'], 'referrers': [], 'self': True,
+             'inverses': {'v13_node': [('children', 'v13_node', 'parent', 'set'), ('befriended_by', 'v13_node', 'buddies', 'set')]}}),
+    # two inverse attributes of the same name, inherited from two supertypes
+    'v14': ("""ENTITY v14_a; n : INTEGER; INVERSE used_in : SET [0:?] OF v14_ra FOR item; END_ENTITY;
+ENTITY v14_b; m : INTEGER; INVERSE used_in : SET [0:?] OF v14_rb FOR item; END_ENTITY;
+ENTITY v14_tgt SUBTYPE OF (v14_a, v14_b); k : INTEGER; END_ENTITY;
+ENTITY v14_ra; item : OPTIONAL v14_a; END_ENTITY;
+ENTITY v14_rb; item : OPTIONAL v14_b; END_ENTITY;""",
+            {'targets': ['v14_tgt'], 'referrers': [('v14_ra', [('item', 'single')]), ('v14_rb', [('item', 'single')])],
+             'inverses': {'v14_tgt': [('v14_a.used_in', 'v14_ra', 'item', 'set'), ('v14_b.used_in', 'v14_rb', 'item', 'set')]}, 'tparams': {'v14_tgt': 3}}),
 }
 SCHEMA = 'SCHEMA iv;\n' + '\n'.join(v[0] for v in VARIANTS.values()) + '\nEND_SCHEMA;\n'
 
 
+def populations_self(vname, desc, tier):
+    """one entity that refers to itself: ALL assignments of parent (unset or any node, itself included) and buddies (every sub-multiset of size <= 1,
+    thorough <= 2) on 1..3 nodes"""
+    tgt = desc['targets'][0]
+    for n in ((1, 2) if tier == 'quick' else (1, 2, 3)):
+        ids = list(range(1, n + 1))
+        bud = [()] + [(a,) for a in ids] + ([tuple(c) for c in itertools.combinations_with_replacement(ids, 2)] if (tier != 'quick' or n == 1) else [])
+        per = [[(p, b) for p in [None] + ids for b in bud] for _ in ids]
+        for combo in itertools.product(*per):
+            insts = []
+            exp = {t: {'children': [], 'befriended_by': []} for t in ids}
+            for i, (p, b) in zip(ids, combo):
+                insts.append('#%d=%s(%s,(%s));' % (i, tgt.upper(), '$' if p is None else '#%d' % p, ','.join('#%d' % x for x in b)))
+                if p is not None:
+                    exp[p]['children'].append(i)
+                for x in set(b):
+                    exp[x]['befriended_by'].append(i)
+            yield insts, exp
+
+
 def populations(vname, desc, tier):
     """yield (insts, expectation): expectation[target id][inverse name] = sorted referrer ids"""
+    if desc.get('self'):
+        for x in populations_self(vname, desc, tier):
+            yield x
+        return
     tgt = desc['targets'][0]
     for ntargets in ((1, 2) if tier == 'quick' else (1, 2, 3)):
         tids = list(range(1, ntargets + 1))
@@ -179,9 +216,12 @@ def run_pop(job):
                 n += 1
                 got = {}
                 for l in lz.cmd('inv %d' % t):
-                    m = re.match(r'V (\S+) owner=(\S+) kind=(\S+) stored=(\S+) ids=(.*)$', l.decode('latin1'))
+                    m = re.match(r'V (\S+) owner=(\S+) kind=(\S+) stored=(\S+) ids=(\S*)(?: via=(\d))?$', l.decode('latin1'))
                     if m:
-                        got[m.group(1).lower()] = (m.group(3), [int(x) for x in m.group(5).split(',') if x and x != 'null'], m.group(4))
+                        got[m.group(1).lower()] = got[m.group(2).lower() + '.' + m.group(1).lower()] = (m.group(3), [int(x) for x in m.group(5).split(',') if x and x != 'null'], m.group(4))
+                        if m.group(6) == '0':
+                            viol.append(('lookup-by-descriptor/%s' % vname, 'getInvAttr(<descriptor of %s.%s>) of #%d does not answer with the holder stored for that inverse attribute' % (
+                                m.group(2), m.group(1), t), case))
                 for inv, ren, ran, ik in desc['inverses'][tgt]:
                     want = sorted(exp[t][inv])
                     g = got.get(inv)
